@@ -25,7 +25,11 @@ impl GraphvizOutput {
         let name = rule.name(cst).unwrap().0;
         output
             .write_all(format!("  \"{}\" [label=\"{}\"];\n", rule.syntax().0, name).as_bytes())?;
-        let regex = Self::skip_paren(cst, rule.regex(cst).unwrap());
+        let Some(regex) = rule.regex(cst) else {
+            // an empty rule (W005) is a node without successor
+            return Ok(());
+        };
+        let regex = Self::skip_paren(cst, regex);
         Self::visit_regex(cst, sema, regex, output)?;
         output.write_all(
             format!(
